@@ -5,3 +5,4 @@ INVARIANT InOrder
 INVARIANT LeftPerfect
 INVARIANT Injective
 INVARIANT SplitIsPow
+INVARIANT PreimageCoversItem
